@@ -65,3 +65,11 @@ Theorem C12_ordered_filter_ignores_listing_order :
   patch_pod_batch_label (with_pods i l) = patch_pod_batch_label (with_pods i l').
 Proof. exact ordered_filter_ignores_listing_order. Qed.
 Print Assumptions C12_ordered_filter_ignores_listing_order.
+
+(* a controller-revision-hash the pass writes onto a pod is the template hash of that pod's OWN ReplicaSet, and the pod carried
+   none before: hashes never travel from one pod (or ReplicaSet) to another *)
+Theorem C12_written_hash_is_the_pods_own_replicaset_hash : forall i ws w h,
+  patch_pod_batch_label i = Ok ws -> In w ws -> w_crh w = Some h ->
+  exists p, In p (pods_used i) /\ p_name p = w_pod w /\ owner_hash p h.
+Proof. exact written_hash_is_the_owners. Qed.
+Print Assumptions C12_written_hash_is_the_pods_own_replicaset_hash.
